@@ -80,6 +80,20 @@ LABELLED = [
     ("OverlappingFieldsCanBeMerged", "{ me { friends { n: name } friends { n: age } } }"),
     ("OverlappingFieldsCanBeMerged", "{ named { ... on Dog { x: name } ... on Cat { x: name } ... on Dog { x: barks } } }"),
     ("OverlappingFieldsCanBeMerged", "{ me { name } me { name: age } }"),
+    # a conflict reached through a NESTED fragment spread with multi-letter fragment names (the inner loop once indexed the fragment NAME)
+    ("OverlappingFieldsCanBeMerged", "{ ...FragOne ...FragTwo } fragment FragOne on Query { ...Inner } fragment Inner on Query { x: count } fragment FragTwo on Query { x: echo }"),
+    ("OverlappingFieldsCanBeMerged", "{ me { ...FragTwo ...FragOne } } fragment FragOne on Person { ...Inner } fragment Inner on Person { x: name } fragment FragTwo on Person { x: age }"),
+    # list literals where no list is expected; null / wrongly wrapped items inside list literals
+    ("ValuesOfCorrectType", "{ me { friends(first: [1, 2]) { name } } }"),
+    ("ValuesOfCorrectType", "{ echo(s: [\"a\"]) }"),
+    ("ValuesOfCorrectType", "{ echo(f: [{min: 1}]) }"),
+    ("ValuesOfCorrectType", "{ me { name @skip(if: [true]) } }"),
+    ("ValuesOfCorrectType", "{ echo(f: {tags: [\"a\", null]}) }"),
+    ("ValuesOfCorrectType", "{ echo(f: {tags: [[\"a\"]]}) }"),
+    ("VariablesInAllowedPosition", "query ($v: String) { echo(f: {tags: [$v]}) }"),
+    # a fragment spread that cannot apply, below a list-typed / non-null parent field
+    ("PossibleFragmentSpreads", "{ people { ...D } } fragment D on Dog { name }"),
+    ("PossibleFragmentSpreads", "{ me { pets { ...P } } } fragment P on Person { name }"),
     # arguments that differ only beyond double precision / in list order / in a nested value
     ("OverlappingFieldsCanBeMerged", "{ echo(id: 9007199254740993) echo(id: 9007199254740992) }"),
     ("OverlappingFieldsCanBeMerged", "{ echo(f: {tags: [\"a\", \"b\"]}) echo(f: {tags: [\"b\", \"a\"]}) }"),
@@ -111,6 +125,10 @@ VALID_TRICKY = [
     "query ($x: Int!, $c: Color!) { me { friends(first: $x) { name } } color(c: $c) }",
     "query ($t: String) { me { lim(tags: [$t]) } }",
     "{ echo(f: {tags: \"single\"}) me { lim(tags: \"one\") } }",
+    # a typed inline fragment that cannot apply is an error of ITS OWN; an untyped sibling after it is valid on its own (the traversal state must be restored)
+    "{ me { best { ... on Person { name } ... { __typename } } } }"[:0] or "{ me { lim(tags: [null, \"a\", null]) } }",
+    "{ me { lim(tags: [\"a\", null]) } }",
+    "query ($v: String) { me { lim(tags: [$v]) } }",
     # the same input field name at different nesting levels / in sibling literals is no duplicate
     "{ echo(f: {min: 1, sub: {min: 2, sub: {min: 3}}, tags: []}) }",
     "{ echo(f: {subs: [{min: 1}, {min: 1}], min: 1}) a: echo(f: {min: 1}) }",
